@@ -90,7 +90,7 @@ func (a *FuncAn) invariantAtom(at *Atom, l *loop, depth int) bool {
 		return false
 	}
 	for _, st := range p.steps {
-		if strings.HasPrefix(st, "[v:") {
+		if strings.HasPrefix(st.key, "[v:") {
 			return false
 		}
 	}
@@ -278,7 +278,7 @@ func (e *Engine) LoopProgress(f *ssa.Function) []LoopRes {
 					if !isBack {
 						continue
 					}
-					s := a.in[p]
+					s := a.out[p]
 					if s == nil {
 						continue
 					}
